@@ -20,9 +20,9 @@ pub enum GameError {
     /// Returned when a game's infosets don't exhibit perfect recall
     ///
     /// If a game does have perfect recall, then a player's infosets must form a tree, that is for
-    /// all game nodes with a given infoset, the infoset of the player's previous action must be
-    /// identical. We ignore this criterion for single action infosets since they don't actually
-    /// reflect a decision.
+    /// all game nodes with a given infoset, the infoset of the player's previous action and the
+    /// action taken there must be identical. We ignore this criterion for single action infosets
+    /// since they don't actually reflect a decision.
     ImperfectRecall,
     /// Returned when a player node has no actions
     EmptyPlayer,
